@@ -11,6 +11,7 @@
 //!        I<q>k<k> pipe_in stream k into object q   J<q>k<k>d<d> pipe stream k through q (depth d, 0 = default); output kept by the caller
 //!        G<k>n<n> produce n items on stream k   H<k> end stream k   N<n> consume n outputs (0 = until the end)   K drop the output stream
 //!        Z<k> block until the pipe of stream k has released its input stream and closure
+//!        L<n> yield n times (lets the other threads settle)
 //!        Q<c> unpark caller c's thread (a stale wake-up token: park may always return spuriously)
 //!        V<e> block until event e   W wait until every started panic has finished unwinding   P<q> every scheduling attempt on q must panic
 //! Body:  t touch | w<e> await event (future bodies) | a<e>-<e2> await event e and fire e2 once the waker is registered | g<g> block on gate | p panic | s<e> fire event | (op) nested op
@@ -46,6 +47,7 @@ pub enum Op {
     DropStream,
     AwaitRelease(usize),
     Noise(usize),
+    Yield(usize),
 }
 
 #[derive(Clone, Debug, PartialEq)]
@@ -105,6 +107,7 @@ pub fn fmt_op(o: &Op) -> String {
         Op::DropStream => "K".into(),
         Op::AwaitRelease(k) => format!("Z{}", k),
         Op::Noise(c) => format!("Q{}", c),
+        Op::Yield(n) => format!("L{}", n),
     }
 }
 impl Program {
@@ -201,6 +204,7 @@ fn parse_op(cs: &[char], i: &mut usize) -> Result<Op, String> {
         'K' => Op::DropStream,
         'Z' => Op::AwaitRelease(parse_num(cs, i)?),
         'Q' => Op::Noise(parse_num(cs, i)?),
+        'L' => Op::Yield(parse_num(cs, i)?),
         _ => return Err(format!("bad op {}", c))
     })
 }
@@ -309,13 +313,20 @@ pub fn generate_pipe(r: &mut Rng, drop_stream: bool) -> Program {
     let depth = if r.chance(1, 3) { 0 } else { 1 + r.below(5) };
     let mut prod = vec![];
     let total: usize;
+    let mut nev_local = 0;
     let depth = if drop_stream && r.chance(1, 2) { 1 + r.below(2) } else { depth };
     let mut c0 = vec![Op::Pipe(0, 0, depth)];
     if drop_stream {
         // half of the drop scenarios throttle the producer first: more items than the buffer takes
-        let a = if depth >= 1 && depth <= 2 { depth + 1 + r.below(3) } else { r.below(4) }; total = a;
-        prod.push(Op::Produce(0, a));
-        if a > 0 && r.chance(1, 2) { c0.push(Op::Consume(1 + r.below(a))); }
+        let throttle = depth >= 1 && depth <= 2;
+        let a = if throttle { depth + 1 + r.below(3) } else { r.below(4) }; total = a;
+        // (the buffer test is made when a poll job STARTS: fill the buffer with one burst, let that job go idle, then send more)
+        if throttle { prod.push(Op::Produce(0, depth)); prod.push(Op::Yield(20 + r.below(20))); prod.push(Op::Produce(0, a - depth)); } else { prod.push(Op::Produce(0, a)); }
+        if throttle {
+            // let the producer fill the buffer and go to sleep on back-pressure before the drop (usually)
+            nev_local = 1; prod.push(Op::Fire(0)); c0.push(Op::WaitEv(0)); c0.push(Op::Yield(30 + r.below(30)));
+            if r.chance(1, 2) { c0.push(Op::Consume(1)); c0.push(Op::Yield(30 + r.below(30))); }
+        } else if a > 0 && r.chance(1, 2) { c0.push(Op::Consume(1 + r.below(a))); }
         c0.push(Op::DropStream);
         c0.push(Op::AwaitRelease(0));
     } else {
@@ -329,7 +340,7 @@ pub fn generate_pipe(r: &mut Rng, drop_stream: bool) -> Program {
     let _ = total;
     let mut conc = vec![];
     for _ in 0..r.below(3) { conc.push(match r.below(2) { 0 => Op::Sync(0, vec![Prim::Touch]), _ => Op::Desync(0, vec![Prim::Touch]) }); }
-    Program { nq: 2, pool, nev: 0, ngates: 0, callers: vec![c0, prod, conc] }
+    Program { nq: 2, pool, nev: nev_local, ngates: 0, callers: vec![c0, prod, conc] }
 }
 
 pub fn profile(name: &str) -> Option<Profile> {
